@@ -64,7 +64,7 @@ func VerifH_C04_reopen() {
 	for s := 0; s < D2 && !w.diverged; s++ {
 		c03Step(w, "t"+string(rune('0'+s)))
 	}
-	for _, l := range []string{"A", "B"} {
+	for _, l := range c03Labels() {
 		vAssert("C04.labelscan", vSortedEq(c04LabelScan(w.gi, l), w.model.idsWithLabel(l)))
 	}
 	vReach("reopen.end")
@@ -157,7 +157,7 @@ func VerifH_C04_crash() {
 	case 3:
 		vKnownFor("C03/delvertex-leaves-label-entry", true, "C04.inv.label-entry-names-vertex")
 		vKnownFor("C03/deledge-leaves-label-entry", true, "C04.inv.label-entry-names-edge")
-		gi.DelVertex(c03ID("dv", 'a', 'b'))
+		gi.DelVertex(c03Pick("dv", []string{"a", "b"}))
 	case 4:
 		vKnownFor("C03/deledge-leaves-label-entry", true, "C04.inv.label-entry-names-edge")
 		vKnown("C04/deledge-not-atomic", kv.crashAt-kv.writes == 1 || kv.crashAt-kv.writes == 2)
